@@ -128,31 +128,20 @@ theorem isOkE_match (x : Except Status Unit) : isOkE x = true ↔ x = .ok () := 
   | ok u => simp [isOkE]
   | error s => simp [isOkE]
 
-/-- the specification's list without the statuses for concrete paths that name an absent event —
-what the code produces (finding `C06-absent-event-silent`) -/
-def expectedEventsSilent (ctx : Ctx) (node : Node) (ff : Bool) (paths : List Path) (queue : List EventOcc) :
-    List EvOut :=
-  (expectedEvents ctx node ff paths queue).filter fun o =>
-    match o with
-    | .status _ .unsupportedEvent => false
-    | _ => true
-
 /-- **`report_events` against the specification**: for every well-formed node, ACL state, non-group
 reader, list of event paths and event queue, the answer is the specification's list — every
 disclosed occurrence exists, is permitted (specification of C05), matches a requested path and is
 not a fabric-sensitive event of another fabric; every occurrence with these properties is reported
-once, in queue order; a concrete path with an absent endpoint / cluster or a denied event gets
-exactly its status — except that concrete paths naming an absent event get no status. -/
-theorem reportEvents_eq_expectedSilent (ctx : Ctx) (node : Node) (ff : Bool) (paths : List Path)
+once, in queue order; a concrete path with an absent endpoint / cluster / event or a denied event
+gets exactly its status. -/
+theorem reportEvents_eq_expected (ctx : Ctx) (node : Node) (ff : Bool) (paths : List Path)
     (queue : List EventOcc)
     (hev : eventsWF node = true) (hwf : WF ctx.fabrics) (hcan : CanonicalPrivs ctx.fabrics)
     (hg : ctx.accessor.authMode ≠ some AuthMode.group) :
-    reportEvents ctx node ff paths queue = expectedEventsSilent ctx node ff paths queue := by
-  unfold reportEvents expectedEventsSilent expectedEvents
-  rw [List.filter_append]
+    reportEvents ctx node ff paths queue = expectedEvents ctx node ff paths queue := by
+  unfold reportEvents expectedEvents eventStatuses
   congr 1
   · -- statuses
-    rw [List.filter_filterMap]
     apply filterMap_congr_mem
     intro p _
     cases p with
@@ -170,19 +159,8 @@ theorem reportEvents_eq_expectedSilent (ctx : Ctx) (node : Node) (ff : Bool) (pa
             rw [validateEventPath_concrete ep cl ev hev hwf hcan hg]
             cases hs : expectedEventStatus ctx node ep cl ev with
             | none => rfl
-            | some s => cases s <;> rfl
+            | some s => rfl
   · -- occurrences
-    rw [List.filter_map]
-    have hall : ∀ o ∈ (queue.filter (eventVisible ctx node ff paths)).map EvOut.data,
-        (match o with | EvOut.status _ Status.unsupportedEvent => false | _ => true) = true := by
-      intro o ho
-      obtain ⟨e, _, rfl⟩ := List.mem_map.mp ho
-      rfl
-    have : ((fun (o : EvOut) => match o with | EvOut.status _ Status.unsupportedEvent => false | _ => true) ∘ EvOut.data)
-        = fun _ => true := by funext e; rfl
-    rw [this]
-    have hft : ∀ (l : List EventOcc), l.filter (fun _ => true) = l := fun l => by simp
-    rw [hft]
     congr 1
     apply List.filter_congr
     intro o _
@@ -191,8 +169,11 @@ theorem reportEvents_eq_expectedSilent (ctx : Ctx) (node : Node) (ff : Bool) (pa
       unfold EventOcc.path
       rw [hconc]
       cases expectedEventStatus ctx node o.ep o.cl o.ev <;> rfl
-    unfold eventVisible matchesFabric
-    rw [hvalid]
+    have hfab : matchesFabric ctx o = fabricAllows ctx o := by
+      unfold matchesFabric fabricAllows EventOcc.fabricOf
+      cases o.fab <;> rfl
+    unfold eventVisible
+    rw [hvalid, hfab]
     cases hst : (expectedEventStatus ctx node o.ep o.cl o.ev).isNone with
     | false => simp
     | true =>
@@ -207,7 +188,7 @@ theorem reportEvents_eq_expectedSilent (ctx : Ctx) (node : Node) (ff : Bool) (pa
         | false => simp
         | true => simp [validate_of_match hv hm]
       rw [hany]
-      cases ff <;> cases (o.fab == 0) <;> cases (o.fab == ctx.accessor.fabIdx) <;>
+      cases fabricAllows ctx o <;>
         cases paths.any (fun p => matchesOpt p.endpoint o.ep && matchesOpt p.cluster o.cl && matchesOpt p.leaf o.ev) <;> rfl
 
 end C06
